@@ -1,5 +1,6 @@
 import TTModel.Manifold
 import TTLemmas.Sum
+import TTLemmas.ExtrasL
 
 /-!
 Helper lemmas for C16 (`torchtt/manifold.py`): block structure of `_delta2cores`
@@ -712,5 +713,522 @@ theorem mf_SameRanks_zip_r1 (ls rs ds es : List (Core α)) :
       · show e.r1 = d.r1
         omega
       · exact ih rs ds es _ a6 b6 p hp
+
+/-! ### linearity of `riemannian_projection` in `z` (TT addition `add`, scaling `scaleFirst`) -/
+
+/-- `einsum('rs,sijS->rijS', L, z)` -/
+def mf_tmp1 (L : Phi2 α) (z : Core α) (r i j S : Nat) : α :=
+  sumTo z.r0 (fun s => L r s * z.get s i j S)
+
+theorem mf_projSd_get_none' (L : Phi2 α) (rR : Nat) (l z : Core α) (r i j S : Nat) :
+    (projSd L none rR l z).get r i j S = mf_tmp1 L z r i j S := rfl
+
+theorem mf_projSd_get_some' (L Rp : Phi2 α) (rR : Nat) (l z : Core α) (r i j R : Nat) :
+    (projSd L (some Rp) rR l z).get r i j R =
+      sumTo z.r1 (fun S => (mf_tmp1 L z r i j S +
+        - sumTo l.r1 (fun R' => l.get r i j R' * pleftStep L l z R' S)) * Rp R S) := rfl
+
+theorem mf_pleftStep_alt (P : Phi2 α) (l z : Core α) (R S : Nat) :
+    pleftStep P l z R S = sumTo l.r0 (fun r => sumTo l.m (fun i => sumTo l.n (fun j =>
+      l.get r i j R * mf_tmp1 P z r i j S))) := by
+  unfold pleftStep
+  apply sumTo_congr; intro r _
+  rw [sumTo_comm]
+  apply sumTo_congr; intro i _
+  rw [sumTo_comm]
+  apply sumTo_congr; intro j _
+  unfold mf_tmp1
+  rw [← sumTo_mul_left]
+  apply sumTo_congr; intro s _
+  ring
+
+/-- column-block splitting of an interface matrix: `Lu = [Lz Lw]` -/
+def mf_LSplit (Lu Lz Lw : Phi2 α) (sz sw : Nat) : Prop :=
+  (∀ r s, s < sz → Lu r s = Lz r s) ∧ (∀ r s, s < sw → Lu r (sz + s) = Lw r s)
+
+def mf_T1 (Lu Lz Lw : Phi2 α) (U z w : Core α) : Prop :=
+  (∀ r i j S, S < z.r1 → mf_tmp1 Lu U r i j S = mf_tmp1 Lz z r i j S) ∧
+  (∀ r i j S, S < w.r1 → mf_tmp1 Lu U r i j (z.r1 + S) = mf_tmp1 Lw w r i j S)
+
+theorem mf_T1_false (Lu Lz Lw : Phi2 α) (z w : Core α) (h : mf_LSplit Lu Lz Lw z.r0 w.r0) :
+    mf_T1 Lu Lz Lw (addCore false false z w) z w := by
+  obtain ⟨hz, hw⟩ := h
+  constructor
+  · intro r i j S hS
+    unfold mf_tmp1
+    show sumTo (z.r0 + w.r0) _ = _
+    rw [sumTo_add]
+    have h2 : sumTo w.r0 (fun s => Lu r (z.r0 + s) * (addCore false false z w).get (z.r0 + s) i j S) = 0 := by
+      apply sumTo_eq_zero; intro s hs
+      have h1 : ¬ (z.r1 ≤ S) := by omega
+      simp [addCore, off, h1]
+    rw [h2, add_zero]
+    apply sumTo_congr; intro s hs
+    have h1 : ¬ (z.r0 ≤ s) := by omega
+    rw [hz r s hs]
+    simp [addCore, off, hs, hS, h1]
+  · intro r i j S hS
+    unfold mf_tmp1
+    show sumTo (z.r0 + w.r0) _ = _
+    rw [sumTo_add]
+    have h2 : sumTo z.r0 (fun s => Lu r s * (addCore false false z w).get s i j (z.r1 + S)) = 0 := by
+      apply sumTo_eq_zero; intro s hs
+      have h1 : ¬ (z.r0 ≤ s) := by omega
+      simp [addCore, off, h1]
+    rw [h2, zero_add]
+    apply sumTo_congr; intro s hs
+    rw [hw r s hs]
+    simp [addCore, off]
+
+theorem mf_T1_true (Lu Lz Lw : Phi2 α) (z w : Core α) (hz0 : z.r0 = 1) (hw0 : w.r0 = 1)
+    (hz : ∀ r, Lu r 0 = Lz r 0) (hw : ∀ r, Lu r 0 = Lw r 0) :
+    mf_T1 Lu Lz Lw (addCore true false z w) z w := by
+  constructor
+  · intro r i j S hS
+    unfold mf_tmp1
+    show sumTo (off true z.r0 + w.r0) _ = _
+    have h1 : ¬ (z.r1 ≤ S) := by omega
+    simp [off, hw0, hz0, sumTo, addCore, hS, h1, hz]
+  · intro r i j S hS
+    unfold mf_tmp1
+    show sumTo (off true z.r0 + w.r0) _ = _
+    simp [off, hw0, hz0, sumTo, addCore, hw]
+
+theorem mf_pleftStep_of_T1 (Lu Lz Lw : Phi2 α) (l U z w : Core α) (h : mf_T1 Lu Lz Lw U z w) :
+    mf_LSplit (pleftStep Lu l U) (pleftStep Lz l z) (pleftStep Lw l w) z.r1 w.r1 := by
+  obtain ⟨hz, hw⟩ := h
+  constructor
+  · intro R S hS
+    rw [mf_pleftStep_alt, mf_pleftStep_alt]
+    apply sumTo_congr; intro r _
+    apply sumTo_congr; intro i _
+    apply sumTo_congr; intro j _
+    rw [hz r i j S hS]
+  · intro R S hS
+    rw [mf_pleftStep_alt, mf_pleftStep_alt]
+    apply sumTo_congr; intro r _
+    apply sumTo_congr; intro i _
+    apply sumTo_congr; intro j _
+    rw [hw r i j S hS]
+
+theorem mf_projSd_some_of_T1 (Lu Lz Lw Ru Rz Rw : Phi2 α) (rR : Nat) (l U z w : Core α)
+    (hU1 : U.r1 = z.r1 + w.r1) (hT : mf_T1 Lu Lz Lw U z w) (hR : mf_LSplit Ru Rz Rw z.r1 w.r1)
+    (r i j R : Nat) :
+    (projSd Lu (some Ru) rR l U).get r i j R =
+      (projSd Lz (some Rz) rR l z).get r i j R + (projSd Lw (some Rw) rR l w).get r i j R := by
+  obtain ⟨hPz, hPw⟩ := mf_pleftStep_of_T1 Lu Lz Lw l U z w hT
+  obtain ⟨hz, hw⟩ := hT
+  obtain ⟨hRz, hRw⟩ := hR
+  rw [mf_projSd_get_some', mf_projSd_get_some', mf_projSd_get_some', hU1, sumTo_add]
+  congr 1
+  · apply sumTo_congr; intro S hS
+    rw [hz r i j S hS, hRz R S hS]
+    congr 3
+    apply sumTo_congr; intro R' _
+    rw [hPz R' S hS]
+  · apply sumTo_congr; intro S hS
+    rw [hw r i j S hS, hRw R S hS]
+    congr 3
+    apply sumTo_congr; intro R' _
+    rw [hPw R' S hS]
+
+theorem mf_tmp1_last (Lu Lz Lw : Phi2 α) (z w : Core α) (h : mf_LSplit Lu Lz Lw z.r0 w.r0)
+    (hz1 : z.r1 = 1) (r i j : Nat) :
+    mf_tmp1 Lu (addCore false true z w) r i j 0 = mf_tmp1 Lz z r i j 0 + mf_tmp1 Lw w r i j 0 := by
+  obtain ⟨hz, hw⟩ := h
+  unfold mf_tmp1
+  show sumTo (z.r0 + w.r0) _ = _
+  rw [sumTo_add]
+  congr 1
+  · apply sumTo_congr; intro s hs
+    have h1 : ¬ (z.r0 ≤ s) := by omega
+    rw [hz r s hs]
+    simp [addCore, off, hs, hz1, h1]
+  · apply sumTo_congr; intro s hs
+    rw [hw r s hs]
+    simp [addCore, off]
+
+theorem mf_prightStep_split (Pu Pz Pw : Phi2 α) (rc z w : Core α)
+    (h : mf_LSplit Pu Pz Pw z.r1 w.r1) :
+    mf_LSplit (prightStep Pu rc (addCore false false z w)) (prightStep Pz rc z) (prightStep Pw rc w)
+      z.r0 w.r0 := by
+  obtain ⟨hz, hw⟩ := h
+  constructor
+  · intro r s hs
+    unfold prightStep
+    apply sumTo_congr; intro R _
+    show sumTo (z.r1 + w.r1) _ = _
+    rw [sumTo_add]
+    have h2 : sumTo w.r1 (fun S => sumTo rc.m (fun i => sumTo rc.n (fun j =>
+        Pu R (z.r1 + S) * rc.get r i j R * (addCore false false z w).get s i j (z.r1 + S)))) = 0 := by
+      apply sumTo_eq_zero; intro S _
+      apply sumTo_eq_zero; intro i _
+      apply sumTo_eq_zero; intro j _
+      have h1 : ¬ (z.r0 ≤ s) := by omega
+      simp [addCore, off, h1]
+    rw [h2, add_zero]
+    apply sumTo_congr; intro S hS
+    apply sumTo_congr; intro i _
+    apply sumTo_congr; intro j _
+    have h1 : ¬ (z.r0 ≤ s) := by omega
+    rw [hz R S hS]
+    simp [addCore, off, hs, hS, h1]
+  · intro r s hs
+    unfold prightStep
+    apply sumTo_congr; intro R _
+    show sumTo (z.r1 + w.r1) _ = _
+    rw [sumTo_add]
+    have h2 : sumTo z.r1 (fun S => sumTo rc.m (fun i => sumTo rc.n (fun j =>
+        Pu R S * rc.get r i j R * (addCore false false z w).get (z.r0 + s) i j S))) = 0 := by
+      apply sumTo_eq_zero; intro S hS
+      apply sumTo_eq_zero; intro i _
+      apply sumTo_eq_zero; intro j _
+      have h1 : ¬ (z.r1 ≤ S) := by omega
+      simp [addCore, off, h1]
+    rw [h2, zero_add]
+    apply sumTo_congr; intro S hS
+    apply sumTo_congr; intro i _
+    apply sumTo_congr; intro j _
+    rw [hw R S hS]
+    simp [addCore, off]
+
+theorem mf_prightStep_split_last (rc z w : Core α) (hz1 : z.r1 = 1) (hw1 : w.r1 = 1) :
+    mf_LSplit (prightStep (fun _ _ => (1:α)) rc (addCore false true z w))
+      (prightStep (fun _ _ => 1) rc z) (prightStep (fun _ _ => 1) rc w) z.r0 w.r0 := by
+  constructor
+  · intro r s hs
+    unfold prightStep
+    apply sumTo_congr; intro R _
+    show sumTo (off true z.r1 + w.r1) _ = _
+    have h1 : ¬ (z.r0 ≤ s) := by omega
+    simp [off, hw1, hz1, sumTo, addCore, hs, h1]
+  · intro r s hs
+    unfold prightStep
+    apply sumTo_congr; intro R _
+    show sumTo (off true z.r1 + w.r1) _ = _
+    simp [off, hw1, hz1, sumTo, addCore]
+
+/-- the right interface matrices of `z + w` are `[Pright^z  Pright^w]` at every position -/
+def mf_RSplit : List (Phi2 α) → List (Phi2 α) → List (Phi2 α) → List (Core α) → List (Core α) → Prop
+  | pu :: pus, pz :: pzs, pw :: pws, z :: zs, w :: ws =>
+      mf_LSplit pu pz pw z.r0 w.r0 ∧ mf_RSplit pus pzs pws zs ws
+  | [], [], [], [], [] => True
+  | _, _, _, _, _ => False
+
+theorem mf_prightList_cons (r : Core α) (rs : List (Core α)) (z : Core α) (zs : List (Core α))
+    (p : Phi2 α) (ps : List (Phi2 α)) (h : prightList rs zs = p :: ps) :
+    prightList (r :: rs) (z :: zs) = prightStep p r z :: p :: ps := by
+  simp [prightList, h]
+
+theorem mf_prightList_single (r z : Core α) :
+    prightList [r] [z] = [prightStep (fun _ _ => (1:α)) r z] := by
+  simp [prightList]
+
+theorem mf_addFrom_cons2 (f : Bool) (z z' w w' : Core α) (zs ws : List (Core α)) :
+    addFrom f (z :: z' :: zs) (w :: w' :: ws) =
+      addCore f false z w :: addFrom false (z' :: zs) (w' :: ws) := rfl
+
+theorem mf_prightList_addFrom (rs zs ws : List (Core α)) (hne : zs ≠ [])
+    (hr : rs.length = zs.length) (hw : ws.length = zs.length) :
+    ∀ sz sw, WF zs sz → WF ws sw →
+      mf_RSplit (prightList rs (addFrom false zs ws)) (prightList rs zs) (prightList rs ws) zs ws := by
+  induction zs generalizing rs ws with
+  | nil => exact absurd rfl hne
+  | cons z zs ih =>
+    intro sz sw hwz hww
+    match rs, ws, hr, hw with
+    | r :: rs, w :: ws, hr, hw =>
+      obtain ⟨_, hwz'⟩ := hwz
+      obtain ⟨_, hww'⟩ := hww
+      cases zs with
+      | nil =>
+        match rs, ws, hr, hw with
+        | [], [], _, _ =>
+          have hz1 : z.r1 = 1 := hwz'
+          have hw1 : w.r1 = 1 := hww'
+          have e : addFrom false [z] [w] = [addCore false true z w] := rfl
+          rw [e, mf_prightList_single, mf_prightList_single, mf_prightList_single]
+          exact ⟨mf_prightStep_split_last r z w hz1 hw1, trivial⟩
+      | cons z' zs' =>
+        match rs, ws, hr, hw with
+        | r' :: rs', w' :: ws', hr, hw =>
+          have IH := ih (r' :: rs') (w' :: ws') (by simp) (by simpa using hr) (by simpa using hw)
+            z.r1 w.r1 hwz' hww'
+          have hlU : (addFrom false (z' :: zs') (w' :: ws')).length = (r' :: rs').length := by
+            rw [length_addFrom _ _ (by simpa using hw.symm)]; simpa using hr.symm
+          have lU := mf_prightList_length (r' :: rs') _ hlU
+          have lZ := mf_prightList_length (r' :: rs') (z' :: zs') (by simpa using hr.symm)
+          have lW := mf_prightList_length (r' :: rs') (w' :: ws') (by simp at hr hw ⊢; omega)
+          rw [mf_addFrom_cons2]
+          generalize hPU : prightList (r' :: rs') (addFrom false (z' :: zs') (w' :: ws')) = PU at IH lU
+          generalize hPZ : prightList (r' :: rs') (z' :: zs') = PZ at IH lZ
+          generalize hPW : prightList (r' :: rs') (w' :: ws') = PW at IH lW
+          match PU, PZ, PW, lU, lZ, lW, IH with
+          | pu :: pus, pz :: pzs, pw :: pws, _, _, _, IH =>
+            rw [mf_prightList_cons r _ _ _ pu pus hPU, mf_prightList_cons r _ _ _ pz pzs hPZ,
+              mf_prightList_cons r _ _ _ pw pws hPW]
+            refine ⟨?_, IH⟩
+            apply mf_prightStep_split
+            have h1 : z'.r0 = z.r1 := hwz'.1
+            have h2 : w'.r0 = w.r1 := hww'.1
+            rw [← h1, ← h2]
+            exact IH.1
+
+theorem mf_projSdsGo_cons2' (l l' z : Core α) (ls zs : List (Core α)) (p0 pr : Phi2 α)
+    (prs : List (Phi2 α)) (L : Phi2 α) :
+    projSdsGo (l :: l' :: ls) (z :: zs) (p0 :: pr :: prs) L =
+      projSd L (some pr) l.r1 l z :: projSdsGo (l' :: ls) zs (pr :: prs) (pleftStep L l z) := by
+  cases zs <;> rfl
+
+theorem mf_tsum_single (l r D : Core α) (i : Nat × Nat) (a : Nat) (h : D.r1 = 1) :
+    mf_tsum [l] [r] [D] [i] a = D.get a i.1 i.2 0 := by
+  simp [mf_tsum, chain, sumTo, h, sumTo_zero']
+
+omit [CommRing α] in
+theorem mf_RSplit_cons_inv (PU PZ PW : List (Phi2 α)) (z w : Core α) (zs ws : List (Core α))
+    (h : mf_RSplit PU PZ PW (z :: zs) (w :: ws)) :
+    ∃ pu pus pz pzs pw pws, PU = pu :: pus ∧ PZ = pz :: pzs ∧ PW = pw :: pws ∧
+      mf_LSplit pu pz pw z.r0 w.r0 ∧ mf_RSplit pus pzs pws zs ws := by
+  cases PU <;> cases PZ <;> cases PW <;> simp [mf_RSplit] at h
+  exact ⟨_, _, _, _, _, _, rfl, rfl, rfl, h.1, h.2⟩
+
+theorem mf_SameRanks_projSds (ls rs zs : List (Core α)) (hs : SameRanks ls rs ls 1) (hz : WF zs 1)
+    (hlen : zs.length = ls.length) (hne : ls ≠ []) :
+    SameRanks ls rs (projSds ls rs zs) 1 := by
+  obtain ⟨hr, _⟩ := mf_SameRanks_length ls rs ls 1 hs
+  exact mf_SameRanks_projSdsGo ls rs zs hne 1 1 _ _ hs hz hlen
+    (by rw [mf_prightList_length rs zs (by omega), hr])
+
+/-- one step of the additivity induction -/
+theorem mf_tsum_step_add (l r Du Dz Dw : Core α) (ls rs TU TZ TW : List (Core α)) (i : Nat × Nat)
+    (is : List (Nat × Nat)) (a : Nat)
+    (hz1 : Dz.r1 = Du.r1) (hw1 : Dw.r1 = Du.r1)
+    (hget : ∀ k, Du.get a i.1 i.2 k = Dz.get a i.1 i.2 k + Dw.get a i.1 i.2 k)
+    (htail : ∀ k, mf_tsum ls rs TU is k = mf_tsum ls rs TZ is k + mf_tsum ls rs TW is k) :
+    mf_tsum (l :: ls) (r :: rs) (Du :: TU) (i :: is) a =
+      mf_tsum (l :: ls) (r :: rs) (Dz :: TZ) (i :: is) a +
+        mf_tsum (l :: ls) (r :: rs) (Dw :: TW) (i :: is) a := by
+  rw [mf_tsum_cons, mf_tsum_cons, mf_tsum_cons, mf_chain_cons, mf_chain_cons Dz, mf_chain_cons Dw,
+    hz1, hw1]
+  have e1 : ∀ k, Du.get a i.1 i.2 k * chain rs is k 0 =
+      Dz.get a i.1 i.2 k * chain rs is k 0 + Dw.get a i.1 i.2 k * chain rs is k 0 := by
+    intro k; rw [hget k]; ring
+  have e2 : ∀ k, l.get a i.1 i.2 k * mf_tsum ls rs TU is k =
+      l.get a i.1 i.2 k * mf_tsum ls rs TZ is k + l.get a i.1 i.2 k * mf_tsum ls rs TW is k := by
+    intro k; rw [htail k]; ring
+  simp only [e1, e2, sumTo_add_fn]
+  ring
+
+theorem mf_tsum_projSdsGo_add (ls rs zs ws : List (Core α)) (is : List (Nat × Nat)) (hne : ls ≠ []) :
+    ∀ (prsU prsZ prsW : List (Phi2 α)) (Lu Lz Lw : Phi2 α) (sz sw : Nat),
+      WF zs sz → WF ws sw → zs.length = ls.length → ws.length = ls.length →
+      rs.length = ls.length → is.length = ls.length →
+      mf_RSplit prsU prsZ prsW zs ws → mf_LSplit Lu Lz Lw sz sw →
+      ∀ a, mf_tsum ls rs (projSdsGo ls (addFrom false zs ws) prsU Lu) is a =
+        mf_tsum ls rs (projSdsGo ls zs prsZ Lz) is a + mf_tsum ls rs (projSdsGo ls ws prsW Lw) is a := by
+  induction ls generalizing rs zs ws is with
+  | nil => exact absurd rfl hne
+  | cons l ls ih =>
+    intro prsU prsZ prsW Lu Lz Lw sz sw hwz hww hlz hlw hlr hli hRS hLS a
+    match zs, ws, rs, is, hlz, hlw, hlr, hli, hwz, hww, hRS with
+    | z :: zs, w :: ws, r :: rs, i :: is, hlz, hlw, hlr, hli, hwz, hww, hRS =>
+      obtain ⟨pu, pus, pz, pzs, pw, pws, rfl, rfl, rfl, _, hRS'⟩ := mf_RSplit_cons_inv _ _ _ _ _ _ _ hRS
+      obtain ⟨hz0, hwz'⟩ := hwz
+      obtain ⟨hw0, hww'⟩ := hww
+      have hLS' : mf_LSplit Lu Lz Lw z.r0 w.r0 := by rw [hz0, hw0]; exact hLS
+      cases ls with
+      | nil =>
+        match zs, ws, rs, is, hlz, hlw, hlr, hli with
+        | [], [], [], [], _, _, _, _ =>
+          have hz1 : z.r1 = 1 := hwz'
+          have hw1 : w.r1 = 1 := hww'
+          have eU : projSdsGo [l] (addFrom false [z] [w]) (pu :: pus) Lu =
+              [projSd Lu none 0 l (addCore false true z w)] := rfl
+          have eZ : projSdsGo [l] [z] (pz :: pzs) Lz = [projSd Lz none 0 l z] := rfl
+          have eW : projSdsGo [l] [w] (pw :: pws) Lw = [projSd Lw none 0 l w] := rfl
+          rw [eU, eZ, eW, mf_tsum_single _ _ _ _ _ (by show off true z.r1 + w.r1 = 1; simp [off, hw1]),
+            mf_tsum_single _ _ _ _ _ (by show z.r1 = 1; exact hz1),
+            mf_tsum_single _ _ _ _ _ (by show w.r1 = 1; exact hw1),
+            mf_projSd_get_none', mf_projSd_get_none', mf_projSd_get_none']
+          exact mf_tmp1_last Lu Lz Lw z w hLS' hz1 a i.1 i.2
+      | cons l' ls' =>
+        match zs, ws, rs, is, hlz, hlw, hlr, hli, hwz', hww', hRS' with
+        | z' :: zs', w' :: ws', r' :: rs', i' :: is', hlz, hlw, hlr, hli, hwz', hww', hRS' =>
+          obtain ⟨pru, pus', prz, pzs', prw, pws', rfl, rfl, rfl, hR0, _⟩ :=
+            mf_RSplit_cons_inv _ _ _ _ _ _ _ hRS'
+          have hT := mf_T1_false Lu Lz Lw z w hLS'
+          have hR : mf_LSplit pru prz prw z.r1 w.r1 := by
+            have h1 : z'.r0 = z.r1 := hwz'.1
+            have h2 : w'.r0 = w.r1 := hww'.1
+            rw [← h1, ← h2]; exact hRS'.1
+          rw [mf_addFrom_cons2, mf_projSdsGo_cons2', mf_projSdsGo_cons2', mf_projSdsGo_cons2']
+          apply mf_tsum_step_add
+          · rfl
+          · rfl
+          · intro k
+            exact mf_projSd_some_of_T1 Lu Lz Lw pru prz prw l.r1 l _ z w rfl hT hR a i.1 i.2 k
+          · intro k
+            exact ih (r' :: rs') (z' :: zs') (w' :: ws') (i' :: is') (by simp)
+              (pru :: pus') (prz :: pzs') (prw :: pws') _ _ _ z.r1 w.r1 hwz' hww'
+              (by simpa using hlz) (by simpa using hlw) (by simpa using hlr) (by simpa using hli)
+              hRS' (mf_pleftStep_of_T1 Lu Lz Lw l _ z w hT) k
+
+/-- `riemannian_projection(x, z + w) = riemannian_projection(x, z) + riemannian_projection(x, w)`
+    as tensors, `z + w` being the TT sum `add` (block cores) -/
+theorem mf_project_add (ls rs zs ws : List (Core α)) (ij : List (Nat × Nat))
+    (hs : SameRanks ls rs ls 1) (hz : WF zs 1) (hw : WF ws 1)
+    (hlz : zs.length = ls.length) (hlw : ws.length = ls.length) (h2 : 2 ≤ ls.length)
+    (hil : ij.length = ls.length) :
+    full (project ls rs (add zs ws)) ij = full (project ls rs zs) ij + full (project ls rs ws) ij := by
+  have hne : ls ≠ [] := by intro h; simp [h] at h2
+  have hzne : zs ≠ [] := by intro h; simp [h] at hlz; omega
+  obtain ⟨hlr, _⟩ := mf_SameRanks_length ls rs ls 1 hs
+  have hla : (add zs ws).length = ls.length := by
+    unfold add; rw [length_addFrom zs ws (by omega)]; exact hlz
+  have hwa : WF (add zs ws) 1 := by
+    have := WF_addFrom zs ws (by omega) hzne true 1 1 hz hw
+    show WF (addFrom true zs ws) 1
+    simpa [off] using this
+  unfold project
+  rw [mf_full_delta2cores ls rs _ ij (mf_SameRanks_projSds ls rs _ hs hwa hla hne) h2 hil,
+    mf_full_delta2cores ls rs _ ij (mf_SameRanks_projSds ls rs _ hs hz hlz hne) h2 hil,
+    mf_full_delta2cores ls rs _ ij (mf_SameRanks_projSds ls rs _ hs hw hlw hne) h2 hil]
+  unfold projSds
+  match ls, rs, zs, ws, ij, h2, hlr, hlz, hlw, hil, hz, hw with
+  | l :: l' :: ls', r :: r' :: rs', z :: z' :: zs', w :: w' :: ws', i :: i' :: is', _, hlr, hlz, hlw,
+      hil, hz, hw =>
+    obtain ⟨hz0, hwz'⟩ := hz
+    obtain ⟨hw0, hww'⟩ := hw
+    have hlz' : (z' :: zs').length = (l' :: ls').length := by simpa using hlz
+    have hlw' : (w' :: ws').length = (l' :: ls').length := by simpa using hlw
+    have hlr' : (r' :: rs').length = (l' :: ls').length := by simpa using hlr
+    have hRS := mf_prightList_addFrom (r' :: rs') (z' :: zs') (w' :: ws') (by simp)
+      (by omega) (by omega) z.r1 w.r1 hwz' hww'
+    have hlU : (addFrom false (z' :: zs') (w' :: ws')).length = (r' :: rs').length := by
+      rw [length_addFrom _ _ (by omega)]; omega
+    have lU := mf_prightList_length (r' :: rs') _ hlU
+    have lZ := mf_prightList_length (r' :: rs') (z' :: zs') (by omega)
+    have lW := mf_prightList_length (r' :: rs') (w' :: ws') (by omega)
+    have eA : add (z :: z' :: zs') (w :: w' :: ws') =
+        addCore true false z w :: addFrom false (z' :: zs') (w' :: ws') := rfl
+    rw [eA]
+    generalize hPU : prightList (r' :: rs') (addFrom false (z' :: zs') (w' :: ws')) = PU at hRS lU
+    generalize hPZ : prightList (r' :: rs') (z' :: zs') = PZ at hRS lZ
+    generalize hPW : prightList (r' :: rs') (w' :: ws') = PW at hRS lW
+    match PU, PZ, PW, lU, lZ, lW, hRS with
+    | pu :: pus, pz :: pzs, pw :: pws, _, _, _, hRS =>
+      rw [mf_prightList_cons r _ _ _ pu pus hPU, mf_prightList_cons r _ _ _ pz pzs hPZ,
+        mf_prightList_cons r _ _ _ pw pws hPW,
+        mf_projSdsGo_cons2', mf_projSdsGo_cons2', mf_projSdsGo_cons2']
+      have hT := mf_T1_true (fun _ _ => (1:α)) (fun _ _ => 1) (fun _ _ => 1) z w hz0 hw0
+        (fun _ => rfl) (fun _ => rfl)
+      have hR : mf_LSplit pu pz pw z.r1 w.r1 := by
+        have h1 : z'.r0 = z.r1 := hwz'.1
+        have h2 : w'.r0 = w.r1 := hww'.1
+        rw [← h1, ← h2]; exact hRS.1
+      apply mf_tsum_step_add
+      · rfl
+      · rfl
+      · intro k
+        exact mf_projSd_some_of_T1 _ _ _ pu pz pw l.r1 l _ z w rfl hT hR 0 i.1 i.2 k
+      · intro k
+        exact mf_tsum_projSdsGo_add (l' :: ls') (r' :: rs') (z' :: zs') (w' :: ws') (i' :: is')
+          (by simp) (pu :: pus) (pz :: pzs) (pw :: pws) _ _ _ z.r1 w.r1 hwz' hww' hlz' hlw' hlr'
+          (by simpa using hil) hRS (mf_pleftStep_of_T1 _ _ _ l _ z w hT) k
+
+theorem mf_scale_eq_smulC (c : α) (z : Core α) : z.scale c = smulC c z := by
+  unfold Core.scale smulC
+  congr
+  funext a i j b
+  ring
+
+theorem mf_tsum_step_smul (c : α) (l r D' D : Core α) (ls rs T' T : List (Core α)) (i : Nat × Nat)
+    (is : List (Nat × Nat)) (a : Nat) (hr1 : D'.r1 = D.r1)
+    (hget : ∀ k, D'.get a i.1 i.2 k = c * D.get a i.1 i.2 k)
+    (htail : ∀ k, mf_tsum ls rs T' is k = c * mf_tsum ls rs T is k) :
+    mf_tsum (l :: ls) (r :: rs) (D' :: T') (i :: is) a =
+      c * mf_tsum (l :: ls) (r :: rs) (D :: T) (i :: is) a := by
+  rw [mf_tsum_cons, mf_tsum_cons, mf_chain_cons, mf_chain_cons D, hr1]
+  have e1 : ∀ k, D'.get a i.1 i.2 k * chain rs is k 0 = c * (D.get a i.1 i.2 k * chain rs is k 0) := by
+    intro k; rw [hget k]; ring
+  have e2 : ∀ k, l.get a i.1 i.2 k * mf_tsum ls rs T' is k =
+      c * (l.get a i.1 i.2 k * mf_tsum ls rs T is k) := by
+    intro k; rw [htail k]; ring
+  simp only [e1, e2, sumTo_mul_left]
+  ring
+
+theorem mf_tsum_projSdsGo_smulL (c : α) (ls rs zs : List (Core α)) (is : List (Nat × Nat)) :
+    ∀ (prs : List (Phi2 α)) (L : Phi2 α), zs.length = ls.length → prs.length = ls.length →
+      rs.length = ls.length → is.length = ls.length →
+      ∀ a, mf_tsum ls rs (projSdsGo ls zs prs (smulP c L)) is a =
+        c * mf_tsum ls rs (projSdsGo ls zs prs L) is a := by
+  induction ls generalizing rs zs is with
+  | nil => intro prs L _ _ _ _ a; simp [mf_tsum]
+  | cons l ls ih =>
+    intro prs L hlz hlp hlr hli a
+    match zs, prs, rs, is, hlz, hlp, hlr, hli with
+    | z :: zs, p0 :: prs, r :: rs, i :: is, hlz, hlp, hlr, hli =>
+      cases ls with
+      | nil =>
+        match zs, prs, rs, is, hlz, hlp, hlr, hli with
+        | [], [], [], [], _, _, _, _ =>
+          have e : ∀ M : Phi2 α, projSdsGo [l] [z] [p0] M = [projSd M none 0 l z] := fun _ => rfl
+          rw [e, e]
+          apply mf_tsum_step_smul
+          · rfl
+          · intro k; exact mf_projSd_smul_L c L none 0 l z a i.1 i.2 k
+          · intro k; simp [mf_tsum]
+      | cons l' ls' =>
+        match zs, prs, rs, is, hlz, hlp, hlr, hli with
+        | z' :: zs', pr :: prs', r' :: rs', i' :: is', hlz, hlp, hlr, hli =>
+          rw [mf_projSdsGo_cons2', mf_projSdsGo_cons2']
+          apply mf_tsum_step_smul
+          · rfl
+          · intro k; exact mf_projSd_smul_L c L (some pr) l.r1 l z a i.1 i.2 k
+          · intro k
+            have e : pleftStep (smulP c L) l z = smulP c (pleftStep L l z) := by
+              funext R S; exact mf_pleftStep_smul_P c L l z R S
+            rw [e]
+            exact ih (r' :: rs') (z' :: zs') (i' :: is') (pr :: prs') _ (by simpa using hlz)
+              (by simpa using hlp) (by simpa using hlr) (by simpa using hli) k
+
+/-- `riemannian_projection(x, c·z) = c · riemannian_projection(x, z)` as tensors
+    (`c·z` = first core scaled, as `TT.__mul__` / `__rmul__` do) -/
+theorem mf_project_smul (c : α) (ls rs zs : List (Core α)) (ij : List (Nat × Nat))
+    (hs : SameRanks ls rs ls 1) (hz : WF zs 1) (hlz : zs.length = ls.length) (h2 : 2 ≤ ls.length)
+    (hil : ij.length = ls.length) :
+    full (project ls rs (scaleFirst c zs)) ij = c * full (project ls rs zs) ij := by
+  have hne : ls ≠ [] := by intro h; simp [h] at h2
+  obtain ⟨hlr, _⟩ := mf_SameRanks_length ls rs ls 1 hs
+  have hls : (scaleFirst c zs).length = ls.length := by
+    cases zs <;> simpa [scaleFirst] using hlz
+  have hws : WF (scaleFirst c zs) 1 := WF_scaleFirst c zs 1 hz
+  unfold project
+  rw [mf_full_delta2cores ls rs _ ij (mf_SameRanks_projSds ls rs _ hs hws hls hne) h2 hil,
+    mf_full_delta2cores ls rs _ ij (mf_SameRanks_projSds ls rs _ hs hz hlz hne) h2 hil]
+  unfold projSds
+  match ls, rs, zs, ij, h2, hlr, hlz, hil with
+  | l :: l' :: ls', r :: r' :: rs', z :: z' :: zs', i :: i' :: is', _, hlr, hlz, hil =>
+    have lZ := mf_prightList_length (r' :: rs') (z' :: zs') (by simp at hlr hlz ⊢; omega)
+    have eS : scaleFirst c (z :: z' :: zs') = z.scale c :: z' :: zs' := rfl
+    rw [eS]
+    generalize hPZ : prightList (r' :: rs') (z' :: zs') = PZ at lZ
+    match PZ, lZ with
+    | p :: ps, lZ =>
+      rw [mf_prightList_cons r _ _ _ p ps hPZ, mf_prightList_cons r _ _ _ p ps hPZ,
+        mf_projSdsGo_cons2', mf_projSdsGo_cons2']
+      apply mf_tsum_step_smul
+      · rfl
+      · intro k
+        rw [mf_scale_eq_smulC]
+        exact mf_projSd_smul_z c _ (some p) l.r1 l z 0 i.1 i.2 k
+      · intro k
+        have e : pleftStep (fun _ _ => (1:α)) l (z.scale c) =
+            smulP c (pleftStep (fun _ _ => 1) l z) := by
+          funext R S; rw [mf_scale_eq_smulC]; exact mf_pleftStep_smul_z c _ l z R S
+        rw [e]
+        exact mf_tsum_projSdsGo_smulL c (l' :: ls') (r' :: rs') (z' :: zs') (i' :: is') (p :: ps) _
+          (by simpa using hlz) (by simp at lZ hlr ⊢; omega) (by simpa using hlr)
+          (by simpa using hil) k
 
 end TT.Manifold
